@@ -239,6 +239,46 @@ def check_configs(torch):
             allowed = {"NotImplementedError"} | ({"ValueError"} if bad_lr else set())
             if err not in allowed:
                 out.append(({"unsupported": name, "bad_lr": bad_lr}, f"unsupported {name} config type: constructor {'succeeded' if err is None else 'raised ' + err}, expected {sorted(allowed)}"))
+    # the same unsupported types given for ONE parameter group only (first or second), the other group / the optimizer
+    # level using None or a supported config
+    for name, key, val in (("grafting", "grafting_config", MyGraft()), ("preconditioner", "preconditioner_config", MyPre(amortized_computation_config=DefaultEigenConfig))):
+        for where in (0, 1):
+            for top in (None, "supported"):
+                n += 1
+                ps = [torch.nn.Parameter(torch.ones(2, 3)), torch.nn.Parameter(torch.ones(3))]
+                groups = [{"params": [ps[0]]}, {"params": [ps[1]]}]
+                groups[where][key] = val
+                kw = {}
+                if top == "supported" and key == "grafting_config":
+                    kw[key] = SGDGraftingConfig()
+                try:
+                    DistributedShampoo(groups, lr=0.01, **kw)
+                    err = None
+                except Exception as ex:
+                    err = type(ex).__name__
+                if err != "NotImplementedError":
+                    out.append(({"unsupported_group": name, "where": where, "top": top}, f"unsupported {name} config type in parameter group {where} only: constructor {'succeeded' if err is None else 'raised ' + err}, expected NotImplementedError"))
+    # ignored dims together with a non-default inverse-root override must be rejected for every preconditioner config type
+    from distributed_shampoo.shampoo_types import EigenvalueCorrectedShampooPreconditionerConfig
+    from matrix_functions_types import DefaultEighEigenvectorConfig, QRConfig
+
+    for pcname, mk in (("shampoo", lambda ig: ShampooPreconditionerConfig(ignored_dims=ig)), ("soap-eigh", lambda ig: EigenvalueCorrectedShampooPreconditionerConfig(ignored_dims=ig)),
+                       ("soap-qr", lambda ig: EigenvalueCorrectedShampooPreconditionerConfig(amortized_computation_config=QRConfig(), ignored_dims=ig))):
+        for ig in ([], [0], [1, 0]):
+            for ov in (0, 2, [1, 2], (2, 2)):
+                n += 1
+                want_ok = (ig == []) or ov == 0
+                try:
+                    DistributedShampoo([torch.nn.Parameter(torch.ones(2, 3))], lr=0.01, inv_root_override=ov, preconditioner_config=mk(list(ig)))
+                    err = None
+                except ValueError:
+                    err = "ValueError"
+                except Exception as ex:
+                    err = type(ex).__name__
+                if want_ok and err is not None:
+                    out.append(({"pc": pcname, "ignored": list(ig), "override": str(ov)}, f"{pcname} config with ignored_dims={ig} and inv_root_override={ov} is in the domain but raised {err}"))
+                if not want_ok and err != "ValueError":
+                    out.append(({"pc": pcname, "ignored": list(ig), "override": str(ov)}, f"{pcname} config with ignored_dims={ig} and inv_root_override={ov}: constructor {'succeeded' if err is None else 'raised ' + err}, expected ValueError"))
     return out, n
 
 
